@@ -20,6 +20,7 @@ PROP = dict(
     units=[
         R("rapid", "A", "./c03", "TestC03Rapid", (60000, 4), (1500000, 16)),
         E("fixed", "A", "./c03", "TestC03Fixed", 1, 1),
+        F("fuzz", "./c03", "FuzzC03", 120),
     ],
 )
 
